@@ -59,29 +59,67 @@ Section EndToEnd.
     unfold start. cbn [facs]. now apply init_cp_facs_other.
   Qed.
 
-  (* the last mode, which only non_negative_parafac_hals lets the caller fix: the returned factor is the supplied one
-     with the weights absorbed *)
-  Theorem fixed_last_mode_hals n fixed budget tol R w (fs : list mat) x s' :
-    run NNHals n fixed budget tol (start x (init_cp rI rmul eqb R (Some w) fs)) = Ok s' ->
-    In (length fs - 1) fixed -> fs <> [] ->
-    nth (length fs - 1) (facs s') [] =
-    if all_ones rI eqb w then nth (length fs - 1) fs [] else scale_cols rmul (nth (length fs - 1) fs []) w.
+  (* non_negative_parafac_hals (the one driver that lets the caller fix the last mode) starts from init_hals: EVERY fixed
+     mode comes back as the supplied array as soon as one mode is left to update, or the weights are unit *)
+  Lemma last_In_ne (l : list nat) : l <> [] -> In (last l 0) l.
+  Proof. induction l as [|a l IH]; [congruence|]. intros _. destruct l as [|b l]; [now left|]. right. apply IH. discriminate. Qed.
+
+  Lemma init_cp_facs_unit R w (fs : list mat) :
+    all_ones rI eqb (match w with None => ones rI R | Some v => v end) = true -> snd (init_cp rI rmul eqb R w fs) = fs.
+  Proof. unfold init_cp. intros H. now rewrite H. Qed.
+
+  Lemma all_ones_ones' R : (forall x y, eqb x y = true <-> x = y) -> all_ones rI eqb (ones rI R) = true.
+  Proof. intros H. unfold all_ones, ones. apply forallb_forall. intros x Hx. apply repeat_spec in Hx. now apply H. Qed.
+
+  Lemma init_hals_facs_fixed R n fixed w (fs : list mat) m d : (forall x y, eqb x y = true <-> x = y) ->
+    n = length fs -> In m fixed -> m < n ->
+    (modes_list NNHals n fixed <> [] \/ all_ones rI eqb (match w with None => ones rI R | Some v => v end) = true) ->
+    nth m (snd (init_hals rI rmul eqb R n fixed w fs)) d = nth m fs d.
   Proof.
-    intros Hrun Hin Hne.
-    rewrite (run_fixed_user upd stop normf pre pre_on post ls_on ls_accept lsf lsw lsx NNHals n fixed budget tol
-               (start x (init_cp rI rmul eqb R (Some w) fs)) s' [] (length fs - 1));
-      [| intros H; discriminate | exact Hrun | exact Hin | discriminate].
-    unfold start, init_cp. destruct (all_ones rI eqb w); cbn [facs snd]; [reflexivity|]. now apply nth_absorb_last_last.
+    intros Heq Hn Hin Hm Hor. unfold init_hals.
+    set (w' := match w with None => ones rI R | Some v => v end) in *.
+    set (free := modes_list NNHals n fixed) in *.
+    destruct (memb (n - 1) fixed) eqn:Elast; cbn [andb].
+    - destruct (Nat.eqb_spec (length free) 0) as [E0|E0]; cbn [negb andb].
+      + (* nothing to update: then the weights are unit by hypothesis *)
+        destruct Hor as [Hne|Hones]; [destruct free; [congruence | discriminate]|].
+        now rewrite (init_cp_facs_unit R w fs Hones).
+      + destruct (all_ones rI eqb w') eqn:Eo; cbn [negb].
+        * now rewrite (init_cp_facs_unit R w fs Eo).
+        * unfold init_cp. rewrite (all_ones_ones' R Heq). cbn [snd].
+          unfold absorb_at. apply nth_set_nth_other. intros ->.
+          assert (Hl : In (last free 0) free) by (apply last_In_ne; destruct free; [simpl in E0; congruence | discriminate]).
+          apply modes_list_In in Hl. destruct Hl as [_ Hl]. apply Hl. exact Hin.
+    - (* the last mode is not fixed: m is not the last mode *)
+      assert (m <> n - 1) by (intros ->; apply memb_In in Hin; congruence).
+      apply init_cp_facs_other. lia.
   Qed.
+
+  Theorem hals_fixed_end_to_end n fixed budget tol R w (fs : list mat) x s' m d : (forall x y, eqb x y = true <-> x = y) ->
+    run NNHals n fixed budget tol (start x (init_hals rI rmul eqb R n fixed w fs)) = Ok s' ->
+    n = length fs -> In m fixed -> m < n ->
+    (modes_list NNHals n fixed <> [] \/ all_ones rI eqb (match w with None => ones rI R | Some v => v end) = true) ->
+    nth m (facs s') d = nth m fs d.
+  Proof.
+    intros Heq Hrun Hn Hin Hm Hor.
+    rewrite (run_fixed_user upd stop normf pre pre_on post ls_on ls_accept lsf lsw lsx NNHals n fixed budget tol
+               (start x (init_hals rI rmul eqb R n fixed w fs)) s' d m);
+      [| intros H; discriminate | exact Hrun | exact Hin | discriminate].
+    unfold start. cbn [facs]. now apply init_hals_facs_fixed.
+  Qed.
+
+  (* what is left: every mode fixed AND non-unit weights -- there is no updated mode to take the weights, the all-fixed
+     return carries them in the last factor (init_hals = init_cp there) *)
 End EndToEnd.
 
-Lemma hals_fixed_last_counterexample : exists (w : list Z) (fs : list (list (list Z))) s',
+Lemma hals_all_fixed_weights_counterexample : exists (w : list Z) (fs : list (list (list Z))) s',
   run (fun _ m s => (nth m (facs s) [], tt)) (fun _ _ => false) (fun s => s) false (fun _ m s => nth m (facs s) []) (fun _ => false) (fun _ _ => tt)
-      (fun _ => false) (fun _ _ _ => false) (fun _ _ l c => c) (fun _ _ l c => c) (fun _ _ _ => tt) NNHals 2 [1] 1 true
-      (start tt (init_cp 1%Z Z.mul Z.eqb 1 (Some w) fs)) = Ok s' /\ In 1 [1] /\
+      (fun _ => false) (fun _ _ _ => false) (fun _ _ l c => c) (fun _ _ l c => c) (fun _ _ _ => tt) NNHals 2 [0; 1] 1 true
+      (start tt (init_hals 1%Z Z.mul Z.eqb 1 2 [0; 1] (Some w) fs)) = Ok s' /\ (forall m, m < 2 -> In m [0; 1]) /\
   nth 1 (facs s') [] <> nth 1 fs [].
 Proof.
-  exists [2%Z], [[[1%Z]]; [[1%Z]]]. eexists. split; [vm_compute; reflexivity|]. split; [now left|]. vm_compute. discriminate.
+  exists [2%Z], [[[1%Z]]; [[1%Z]]]. eexists. split; [vm_compute; reflexivity|].
+  split; [intros m Hm; destruct m as [|[|m]]; simpl; auto; lia|]. vm_compute. discriminate.
 Qed.
 
 (* ---- end to end, zero budget: every algorithm returns a CP tensor that represents the supplied one *)
@@ -101,5 +139,22 @@ Section ZeroEndToEnd.
   Proof.
     intros Hne Hl. eexists. split; [apply run_zero_budget|].
     unfold start. cbn [wts facs]. now apply (init_cp_represents F rO rI radd rmul rsub ropp Rth eqb eqb_ok).
+  Qed.
+
+  (* the start state of non_negative_parafac_hals represents the supplied CP tensor, whichever factor took the weights *)
+  Theorem init_hals_represents R n fixed w (fs : list (@matrix F)) idx : fs <> [] -> length w = R -> n = length fs ->
+    cp_entry rO rI radd rmul R (fst (init_hals rI rmul eqb R n fixed (Some w) fs)) (snd (init_hals rI rmul eqb R n fixed (Some w) fs)) idx
+    = cp_entry rO rI radd rmul R w fs idx.
+  Proof.
+    intros Hne Hl Hn. unfold init_hals.
+    destruct (memb (n - 1) fixed && negb (length (modes_list NNHals n fixed) =? 0) && negb (all_ones rI eqb w)) eqn:E.
+    - rewrite (init_cp_none F rI rmul eqb eqb_ok). cbn [fst snd]. symmetry.
+      apply (cp_absorb_entry_at F rO rI radd rmul rsub ropp Rth).
+      apply andb_true_iff in E. destruct E as [E _]. apply andb_true_iff in E. destruct E as [_ E].
+      apply negb_true_iff in E. apply Nat.eqb_neq in E.
+      assert (Hin : In (last (modes_list NNHals n fixed) 0) (modes_list NNHals n fixed))
+        by (apply last_In_ne; destruct (modes_list NNHals n fixed); [simpl in E; congruence | discriminate]).
+      apply modes_list_In in Hin. lia.
+    - now apply (init_cp_represents F rO rI radd rmul rsub ropp Rth eqb eqb_ok).
   Qed.
 End ZeroEndToEnd.
